@@ -3,6 +3,7 @@ package mergep
 import (
 	"context"
 	"fmt"
+	"github.com/PowerDNS/lightningstream/snapshot"
 	"sort"
 	"time"
 
@@ -18,6 +19,7 @@ import (
 	"verif/lsx"
 	"verif/rng"
 	"verif/runner"
+	"verif/sched"
 	"verif/wire"
 )
 
@@ -32,13 +34,21 @@ type sweepScn struct {
 	SnapAgePct int `json:"snapshot_age_pct_of_retention,omitempty"`
 }
 
+// staleCopyScn: an instance is started on an LMDB that holds application data but no timestamped state for it (a copy
+// or backup, a key added while the syncer was down), while the bucket already carries the deletion of one of the keys.
+type staleCopyScn struct {
+	ReceiveOnly bool `json:"receive_only"`
+	HoursAgo    int  `json:"deleted_hours_ago"`
+}
+
 type c04Params struct {
 	Hist   *Hist `json:"hist,omitempty"`
 	Config *struct {
 		Seed  uint64 `json:"seed"`
 		Count int    `json:"count"`
 	} `json:"config,omitempty"`
-	Sweep *sweepScn `json:"sweep,omitempty"`
+	Sweep *sweepScn     `json:"sweep,omitempty"`
+	Stale *staleCopyScn `json:"stale_copy,omitempty"`
 }
 
 var retDaysGrid = []float32{0, 1e-6, 1e-3, 0.1, 0.5, 1, 1.03, 370, 1e5}
@@ -102,6 +112,11 @@ func C04() *runner.Property {
 					}
 				}
 			}
+			for _, ro := range []bool{true, false} {
+				for _, h := range []int{1, 48, 24 * 400} {
+					cs = append(cs, runner.MkCase("stale-copy", fmt.Sprintf("recvonly=%v-deleted-%dh-ago", ro, h), c04Params{Stale: &staleCopyScn{ReceiveOnly: ro, HoursAgo: h}}))
+				}
+			}
 			return cs
 		},
 		Run: func(c runner.Case, env *runner.Env) (res runner.Result) {
@@ -116,6 +131,8 @@ func C04() *runner.Property {
 				runConfig(p.Config.Seed, p.Config.Count, &res)
 			case p.Sweep != nil:
 				runSweep(*p.Sweep, env, &res)
+			case p.Stale != nil:
+				runStaleCopy(*p.Stale, env, &res)
 			}
 			return
 		},
@@ -344,4 +361,58 @@ func runSweep(sc sweepScn, env *runner.Env, res *runner.Result) {
 	res.Count("markers_much_younger", int64(younger))
 	res.NonTrivial = older > 0 && younger > 0
 	res.Sample = map[string]any{"scenario": sc, "markers": len(marks), "older": older, "younger": younger}
+}
+
+func runStaleCopy(sc staleCopyScn, env *runner.Env, res *runner.Result) {
+	b := bucket.New()
+	s := sched.New()
+	defer s.Close()
+	opt := inst.Opt{Native: false}
+	opt.Options.ReceiveOnly = sc.ReceiveOnly
+	x, err := inst.New(env.Dir("c04stale"), b, db, "r", opt)
+	if err != nil {
+		res.Verdict, res.Msg = runner.Inconclusive, err.Error()
+		return
+	}
+	defer x.Close()
+	// application data without any timestamped state
+	_, _ = lmdbx.Update(x.Env, func(txn *lmdb.Txn) error {
+		if err := lmdbx.Put(txn, "d", 0, []byte("foo"), []byte("v1")); err != nil {
+			return err
+		}
+		return lmdbx.Put(txn, "d", 0, []byte("keep"), []byte("x"))
+	})
+	// the other instance wrote both keys long ago and deleted foo HoursAgo hours ago
+	tDel := time.Now().Add(-time.Duration(sc.HoursAgo) * time.Hour)
+	tPut := tDel.Add(-time.Hour)
+	rs := &wire.Snap{FormatVersion: 3, CompatVersion: 1, Meta: wire.Meta{DatabaseName: db, InstanceID: "a", GenerationID: "GX", TimestampNano: uint64(tDel.UnixNano())},
+		DBIs: []wire.DBI{{Name: "d", Entries: []wire.KV{
+			{Key: []byte("foo"), TS: uint64(tDel.UnixNano()), Flags: 1},
+			{Key: []byte("keep"), Val: []byte("x"), TS: uint64(tPut.UnixNano())},
+			{Key: []byte("other"), Val: []byte("o"), TS: uint64(tPut.UnixNano())}}}}}
+	name := snapshot.Name(db, "a", "GX", tDel)
+	b.Put(name, wire.Gzip(wire.EncodeSnapshot(rs)))
+	loop := sched.Start(x, s)
+	defer loop.Stop(5 * time.Second)
+	if ok, why := loop.WaitQuiescent([]string{name}, 5, 20*time.Second); !ok {
+		if err, c, fin := loop.Result(); fin {
+			res.Violate("sync-ended", fmt.Sprintf("Sync ended (err=%v crashed=%v)", err, c), map[string]any{"scenario": sc, "events_tail": s.Tail(40)})
+			return
+		}
+		res.Verdict, res.Msg = runner.Inconclusive, "no quiescence: "+why
+		return
+	}
+	// a few more capture rounds: a later local capture must not re-stamp the stale copy over the marker either
+	_, _ = lmdbx.Update(x.Env, func(txn *lmdb.Txn) error { return lmdbx.Put(txn, "d", 0, []byte("local-later"), []byte("l")) })
+	loop.WaitQuiescent(nil, 5, 20*time.Second)
+	av, _ := x.App()
+	res.Count("stale_copy_scenarios", 1)
+	wit := map[string]any{"scenario": sc, "app": fmt.Sprint(av), "events_tail": s.Tail(40)}
+	if v, ok := av["d"]["foo"]; ok {
+		res.Violate("deleted-key-resurrected", fmt.Sprintf("foo was deleted on instance a %d h ago; instance r was started on an LMDB still holding foo=%q without timestamped state (receive-only=%v): after merging a's snapshot the key is still visible", sc.HoursAgo, v, sc.ReceiveOnly), wit)
+	}
+	if av["d"]["other"] != "o" || av["d"]["keep"] != "x" {
+		res.Violate("remote-data-not-merged", "the remote snapshot's live entries are not in the application DBI", wit)
+	}
+	res.NonTrivial = true
 }
